@@ -278,8 +278,9 @@ class Source:
         scope = self.top_items()
         item = None
         for sel in path:
-            kind, _, pat = sel.strip().partition(" ")
-            pat = pat.strip()
+            km = re.match(r"[a-z_]+", sel.strip())
+            kind = km.group(0)
+            pat = sel.strip()[km.end():].strip()
             cands = [it for it in scope if it.kind == kind and _sel_match(it, pat)]
             # items compiled only for tests or only under the verification hook are not the running code
             cands = [it for it in cands if not re.search(r"cfg\s*\(\s*(test|jsonrpsee_verif)\s*\)", self.text[it.start : it.hdr_start])]
@@ -303,7 +304,7 @@ def _sel_match(it, pat):
     if pat.startswith("/") and pat.endswith("/"):
         return re.search(pat[1:-1], it.header) is not None
     if it.kind == "impl":
-        return " ".join(it.name.split()) == " ".join(pat.split())
+        return "".join(it.name.split()) == "".join(pat.split())
     return it.name == pat
 
 
